@@ -538,6 +538,13 @@ def conv_opt_call(before, after):
     temps = [itn._base(f"temp_{k}") for k in range(N_TEMPS)]
     d = {"temps": temps, "before": conv_items(before, itn), "after": conv_items(after, itn)}
     try:
+        # does any declaration of the list shadow a visible outer one?  (then one identifier per name would not be C's scoping)
+        sitn = Interner()
+        conv_items(before, sitn)
+        d["shadowing"] = len(sitn.shadowed)
+    except Unsupported:
+        d["shadowing"] = None
+    try:
         flat = [x for x in after if not isinstance(x, list)]
         if len(flat) == len(after) and len(after) != 1:
             s = conv_stmt(L.StatementList(list(after)), itn)
